@@ -9,6 +9,12 @@ Line-protocol front end of the C05 model (requests after the leading `C05` field
   visit <perm> <hex,hex,…>                             → the entries in the adversary's order (Environ, StringKeys)
   firstFailure <perm> <ok|e<id>,…>                     → id of the failure that is reported, or none
   overrides <perm> <name=ok|name=bad,…>                → the names whose override is applied (sorted)
+  setOrder <perm> <item,…>                             → positions (in the request) of the items in SortedItems order,
+                                                          the map range visiting them in the order <perm>
+  setIter <perm> <item,…>                              → the same for the items an iteration over the set yields
+  sortedBy <perm> <item,…> <rank,…>                    → the same for sorted(set|map, cmp), cmp a b = rank a < rank b
+  importCache <perm> <global=modname:id|global=-,…> <name,…> → per name: id of the module `import name` binds, or -
+  item := i:<int> | s:<hex> | t | f | n | d:<position of the float among the non-NaN floats> | D (NaN) | b:<byte> | y:<hex bytes>
 
 Program tokens (prefix notation, separated by single spaces):
   prog  := <nstmts> stmt* expr          stmt := d <name> expr | e expr
@@ -116,6 +122,26 @@ def constText : Const → String
 
 def orDash (s : String) : String := if s.isEmpty then "-" else s
 
+def parseKey (s : String) : Option HKey :=
+  if s.startsWith "i:" then (s.drop 2).toString.toInt?.map fun n => ⟨"int", n, "", 0, false⟩
+  else if s.startsWith "s:" then
+    (if s = "s:-" then some "" else hexStr (s.drop 2).toString).map fun x => ⟨"string", 0, x, 0, false⟩
+  else if s.startsWith "y:" then
+    (if s = "y:-" then some "" else hexStr (s.drop 2).toString).map fun x => ⟨"byte_slice", 0, x, 0, false⟩
+  else if s.startsWith "b:" then (s.drop 2).toString.toInt?.map fun n => ⟨"byte", n, "", 0, false⟩
+  else if s.startsWith "d:" then (s.drop 2).toString.toInt?.map fun n => ⟨"float", 0, "", n, false⟩
+  else if s = "D" then some ⟨"float", 0, "", 0, true⟩
+  else if s = "t" then some ⟨"bool", 1, "", 0, false⟩
+  else if s = "f" then some ⟨"bool", 0, "", 0, false⟩
+  else if s = "n" then some ⟨"nil", 0, "", 0, false⟩
+  else none
+
+def parseKeys (s : String) : Option (List HKey) :=
+  if s = "-" then some [] else (s.splitOn ",").mapM parseKey
+
+def positions (ks sorted : List HKey) : String :=
+  orDash (".".intercalate (sorted.map fun k => toString (ks.findIdx (· == k))))
+
 def handle : List String → String
   | ["frag", globals, prog] =>
     match parseProg prog with
@@ -162,6 +188,35 @@ def handle : List String → String
       | [] => ("", none)
     let m := applyOverrides (applyPerm (parsePerm perm) l) AMap.empty
     orDash (",".intercalate (sortedKeys ((l.map (·.1)).filter fun k => (m k).isSome)))
+  | ["setOrder", perm, items] =>
+    match parseKeys items with
+    | some ks => positions ks (sortedItems (applyPerm (parsePerm perm) ks))
+    | none => "error\tbad-item"
+  | ["setIter", perm, items] =>
+    match parseKeys items with
+    | some ks => positions ks (iterItems (applyPerm (parsePerm perm) ks))
+    | none => "error\tbad-item"
+  | ["sortedBy", perm, items, ranks] =>
+    match parseKeys items with
+    | some ks =>
+      let rs := if ranks = "-" then [] else (ranks.splitOn ",").filterMap String.toInt?
+      let rank (k : HKey) : Int := rs.getD (ks.findIdx (· == k)) 0
+      positions ks (sortedBuiltin rank (applyPerm (parsePerm perm) ks))
+    | none => "error\tbad-item"
+  | ["importCache", perm, globals, names] =>
+    let gs := (if globals = "-" then [] else globals.splitOn ",").map fun (s : String) =>
+      match s.splitOn "=" with
+      | [g, m] =>
+        match m.splitOn ":" with
+        | [mn, id] => (g, some (mn, id.toNat?.getD 0))
+        | _ => (g, none)
+      | g :: _ => (g, none)
+      | [] => ("", none)
+    let cache := moduleCache (applyPerm (parsePerm perm) gs)
+    orDash (",".intercalate ((if names = "-" then [] else names.splitOn ",").map fun n =>
+      match cache n with
+      | some m => toString m.2
+      | none => "-"))
   | _ => "error\tunknown-request"
 
 end Risor.C05
